@@ -30,6 +30,14 @@ CHECKS = {
          "Random structured search over identifier strings per type (grammar-derived, 1-2 edit mutants, 255/511/767-byte boundary constructions, unstructured) with an accept=>necessary / sufficient=>accept oracle written from the spec appendix, accessor recomposition, agreement of all parsing/serde forms, and constructor outputs re-parsed. Shrunk failures become replay files.",
          "Trusted: rustc/std (incl. Ipv6Addr parser), proptest, serde_json. Spec-silent gaps (ports 65536-99999, server-less room ids, empty localparts, over-long key algorithms) are counted, not asserted.",
          "DESIGN.md section 5 C10"),
+ "C11": ("vf-core", "property-based testing (proptest): constructor-built URI values and mutated URI texts, round-trip oracle plus independent percent-decoder",
+         "Random URI values built through every public constructor over grammar-derived and hostile identifiers (reserved, percent, non-ASCII characters; 0-3 via servers) must satisfy parse(format(u)) == u and an independent percent-decoder applied to the formatted path must give back the identifier bytes; formatted URIs with edits, token soups and arbitrary strings must parse or error without panicking, and every parsed value must re-format to text that parses to the same value (covers custom actions).",
+         "Trusted: rustc/std, proptest, the hand-written percent decoder. Identifiers with an empty opaque part are excluded by construction (C10 grammar gap).",
+         "DESIGN.md section 5 C11"),
+ "C12": ("vf-core", "bounded-exhaustive enumeration of glob pattern x value pairs plus property-based testing of rulesets against a reference evaluator",
+         "All glob patterns over a 6-letter alphabet up to length 3 (thorough 4) x all values over a 7-letter alphabet up to length 4 (thorough 5) in whole-value and word-boundary mode against a dynamic-programming glob matcher; random longer patterns; random rulesets x events x contexts against a reference implementation of flattening, every condition kind and first-enabled-match ordering; conditions are aimed at properties the event really has.",
+         "Trusted: the hand-written reference (glob, word-boundary rule = not both neighbours are word characters, flattening, rule order), std's Unicode lower-casing. Spec-silent corners (empty word-mode patterns, glob display names, notification keys other than room) are counted, not asserted.",
+         "DESIGN.md section 5 C12"),
  "C13": ("vf-core", "model-based testing: bounded-exhaustive enumeration of operation sequences plus proptest random sequences against a Vec-per-kind placement model",
          "Every operation sequence up to length 2 over the full alphabet (insert with every after/before anchor pair, remove, set_enabled, set_actions, reserved ids, default-rule targets) from the empty, the server-default and every populated arrangement of up to three rules, deeper sequences over a reduced alphabet, and random sequences up to 40 operations, each step compared with a model of the documented placement semantics; errors must leave the ruleset unchanged; panics are caught.",
          "Trusted: rustc/std, proptest, the hand-written model (documented semantics in rustdoc of Ruleset::insert). Self-anchored inserts and overrides without a leading master rule are only partially asserted.",
